@@ -23,7 +23,8 @@ import (
 // returned byte slices / strings are kept, and a private copy is taken immediately after each
 // call); only after the whole batch has been encoded is each KEPT encoding compared with its copy
 // and decoded again. An encoder that hands out memory it reuses on the next call passes an
-// immediate Decode(Encode(g)) and fails here. The whole history lives on one line (replay unit).
+// immediate Decode(Encode(g)) and fails here; so does a DECODER whose result is overwritten by a
+// later decoder call (the geometry is rendered as returned, the encodings are made after the batch). The whole history lives on one line (replay unit).
 //
 // Result: `batch || m <i> err:<class> || m <i> ok | <geom> | <tag> k<kept hex> c<copy hex> <late decode> | ...`
 
@@ -43,6 +44,7 @@ func runBatch(line string) string {
 	type member struct {
 		g    geom.Geom
 		res  string
+		toks string // the geometry AS RETURNED: rendered right after the call, before any later decoder call
 		encs []*keptEnc
 	}
 	var ms []*member
@@ -69,6 +71,7 @@ func runBatch(line string) string {
 			m.res = "nilnil"
 		default:
 			m.res = "ok"
+			m.toks = vproto.GeomToks(m.g)
 		}
 		ms = append(ms, m)
 	}
@@ -125,7 +128,9 @@ func runBatch(line string) string {
 		if m.res != "ok" {
 			continue
 		}
-		b.WriteString(" | " + vproto.GeomToks(m.g))
+		// what the call returned (not what the value holds now): a decoder whose results share memory
+		// with later calls re-encodes to something else than it returned
+		b.WriteString(" | " + m.toks)
 		for _, k := range m.encs {
 			if k.err {
 				b.WriteString(" | " + k.tag + " encerr")
